@@ -14,6 +14,15 @@ CLAIMED = {
         note='pamqp envelope modelled (unmarshalEnv) and tied by correspondence; payload codecs opaque; SSL read path not modelled.',
         technique='Lean 4 proof (structural induction over frames/chunks) + regenerated guard + SEQ correspondence',
         design='3/C02'),
+    'C04': dict(
+        text='Lean theorems (Props/C04.lean): for every body and every channel limit, the body frames are non-empty, at most max(limit-8,1) '
+             'bytes, exactly ceil(len/slice) many, and concatenate to the encoded body; the header announces the encoded length; the '
+             'negotiated frame size is positive, within client and non-zero broker limits, equals what TuneOk announces, and no body frame '
+             'exceeds it on the wire. All arithmetic kernels are regenerated from _create_content_body, Basic.__init__, _negotiate and '
+             '_send_tune_ok each run; the model is co-executed with the real Basic.publish on a boundary grid.',
+        note='ceil via float translated as exact ceiling (len < 2^53); codecs other than utf-8 opaque; pamqp marshalling of method/header opaque.',
+        technique='Lean 4 proof over regenerated arithmetic kernels + SEQ correspondence on a boundary grid',
+        design='3/C04'),
 }
 
 PENDING_REASON = 'not yet built in this round (design in DESIGN.md section 3); will be claimed when its Lean model, theorems and tie exist'
